@@ -235,7 +235,16 @@ impl BmpStateDetails<Dumping> {
         pph: &PerPeerHeader<Bytes>,
         update: &UpdateMessage<Bytes>,
     ) -> ControlFlow<ProcessingResult, Self> {
-        if let Ok(Some(afi_safi)) = update.is_eor() {
+        // An End-of-RIB marker carries no routes (RFC 4724 section 2).
+        // UpdateMessage::is_eor() only looks at the MP_UNREACH_NLRI
+        // attribute: an UPDATE that announces or withdraws routes next to an
+        // MP_UNREACH_NLRI without (parsable) prefixes must not end the dump,
+        // or its routes would be dropped by the early return below.
+        let carries_routes = update.withdrawn_routes_len() > 0
+            || update.has_conventional_nlri()
+            || update.has_mp_nlri().unwrap_or(true);
+
+        if let (false, Ok(Some(afi_safi))) = (carries_routes, update.is_eor()) {
             let all_eors_seen = self
                 .details
                 .remove_pending_eor(pph, (afi_safi).try_into().unwrap());
